@@ -50,7 +50,7 @@ type rtPat struct {
 	optSlash []bool
 }
 
-var rtLits = []string{"a", "b", "api", "a.b", "v1.0", "users", "x", "blog", "u", "a-b", "c_d", "9"}
+var rtLits = []string{"a", "b", "api", "a.b", "v1.0", "users", "x", "blog", "u", "a-b", "c_d", "9", "café", "文档", "résumé.pdf", "v1.0é"}
 
 func (g *rtG) seg(allowVar bool) []rtPart {
 	r := g.r
